@@ -44,6 +44,9 @@ def _chunk_worker(args):
             continue
         case, exp = st["case"], st["exp"]
         stats["cases"] += 1
+        if exp[0] == "unspec":                 # the property makes no claim for this case: nothing to execute or judge
+            stats["unspec"] += 1
+            continue
         if vmod.nontrivial(prop, case):
             stats["nontrivial"] += 1
         if len(samples) < 2:
